@@ -79,6 +79,36 @@ def lastAssigned (k : K) : List (Op K V) → Option V → Option V
   | .del k' :: ops, cur => lastAssigned k ops (if k' = k then none else cur)
   | _ :: ops, cur => lastAssigned k ops cur
 
+/-- **Coherence of the three maps** (the invariant of every reachable `MultiKeyDict`). -/
+structure Inv (s : St K V) : Prop where
+  /-- one entry, hence one key tuple, per value -/
+  invNodup : (s.invDict.map (·.1)).Nodup
+  /-- the storage is `_inv_dict` read backwards, entry by entry -/
+  storeEq : s.store = s.invDict.map (fun e => (e.2, e.1))
+  /-- no value without keys -/
+  tupNe : ∀ e ∈ s.invDict, e.2 ≠ []
+  /-- no key twice in a tuple -/
+  tupNodup : ∀ e ∈ s.invDict, e.2.Nodup
+  /-- the key tuples partition the keys: a key lies in one tuple only -/
+  disj : ∀ e ∈ s.invDict, ∀ e' ∈ s.invDict, ∀ k, k ∈ e.2 → k ∈ e'.2 → e = e'
+  /-- `_keys_dict` maps exactly the keys of every tuple to that tuple -/
+  keys : ∀ k t, dget s.keysDict k = some t ↔ ∃ v, (v, t) ∈ s.invDict ∧ k ∈ t
+  /-- `_keys_dict` has one entry per key -/
+  keysNodup : (s.keysDict.map (·.1)).Nodup
+
+/-- the three-map state `s` represents the abstract map `l`: it is coherent and every value owns
+    the tuple of its keys in the order of `l` (most recent assignment last) -/
+structure Rep (s : St K V) (l : Log K V) : Prop where
+  inv : Inv s
+  logNodup : (l.map (·.1)).Nodup
+  groups : ∀ v, value2keys s v = keysOf l v
+
+/-- the canonical abstract map of a state: the tuples of `_inv_dict` laid out one after the other -/
+def absLog (s : St K V) : Log K V := s.invDict.flatMap (fun e => e.2.map (fun k => (k, e.1)))
+
+/-- two abstract maps are the same map with the same grouping -/
+def Log.equiv (l l' : Log K V) : Prop := ∀ v, keysOf l v = keysOf l' v
+
 end MK
 
 /-! ## StrategyDict -/
